@@ -278,15 +278,17 @@ RealPartition ==
     /\ \A k1, k2 \in live : k1 # k2 => ext(k1) \cap ext(k2) = {}
     /\ \A k \in live : ext(k) \cap real.free = {}
     /\ (real.extra = 0) => (UNION {ext(k) : k \in live}) \cup real.free = Blocks
-\* C05: the blocks of a key's newest generation - acknowledged, with nothing accepted for the key after it, its head on the
-\* durable device - have ONE owner: the store that recovery builds from any crash image does not report them free
+\* C05: a key's newest generation - acknowledged, nothing accepted for the key after it, not expired when the image is
+\* recovered - has at least one complete copy on the durable device (a failed batch may have left a second one, which
+\* recovery retires): the blocks of SOME copy have one owner, i.e. the store that recovery builds from any crash image does
+\* not report every copy's blocks free
 RealFreeNotLive ==
   (real.on /\ real.ok) =>
     \A k \in Keys :
       LET n == Len(hist[k]) IN
-      (n > 0 /\ ack[k] = n /\ hist[k][n] > 0) =>
-        \A b \in Blocks : (dur.blk[b].t = "H" /\ dur.blk[b].g = hist[k][n] /\ b + dur.blk[b].n <= DE)
-                              => (b .. (b + dur.blk[b].n - 1)) \cap real.free = {}
+      (n > 0 /\ ack[k] = n /\ hist[k][n] > 0 /\ ~Expd(hist[k][n], real.now)) =>
+        LET heads == {b \in Blocks : dur.blk[b].t = "H" /\ dur.blk[b].g = hist[k][n] /\ b + dur.blk[b].n <= DE} IN
+        heads # {} => \E b \in heads : (b .. (b + dur.blk[b].n - 1)) \cap real.free = {}
 \* conformance of recovery.rs with the abstract reader (a deviation, not a verdict)
 RecConforms ==
   real.on =>
